@@ -147,8 +147,9 @@ class Run:
         fam = "message" if key is None else self.family(ent)
         ffam = {"urlencoded": "form", "dict": "json", "json": "json"}.get(fmt, fmt)
         sig = "%s:%s" % (ffam, fam)
-        if ent is not None and tier1(ent) in LISTK and key in before and isinstance(before[key], list) \
-                and any(isinstance(x, str) and " " in x for x in before[key]) and exc is None:
+        if ent is not None and tier1(ent) == "list" and fmt == "urlencoded" and key in before \
+                and isinstance(before[key], list) and any(isinstance(x, str) and " " in x for x in before[key]) \
+                and exc is None:
             sig = "space-in-list-element"
         what = "%s round trip of %s changes the message: %s=%r becomes %r%s" % (
             fmt, rec["class"], key, before.get(key) if isinstance(before, dict) else None,
@@ -189,7 +190,7 @@ class Run:
         ctx.count("failure-of-a-required-parameter(reported in its own cell)")
 
     # ---- one cell: a class, the keyword arguments, the key under test
-    def cell(self, name, cls, kwargs, key, model=True, formats=("dict", "json", "urlencoded")):
+    def cell(self, name, cls, kwargs, key, model=True, formats=("dict", "json", "urlencoded"), oracle=True):
         ctx = self.ctx
         self.cells += 1
         rec = {"class": name, "kwargs": canon(kwargs), "key": key}
@@ -217,7 +218,8 @@ class Run:
                 if frag:
                     self.add_case("to_url", name, coq_msg(before), ("exc", res[1]), coq_str, rec)
                 continue
-            self.judge(fmt, name, cls, key, kwargs, before, res, rec)
+            if oracle:
+                self.judge(fmt, name, cls, key, kwargs, before, res, rec)
             # ---- the same steps for the model
             if not frag:
                 continue
@@ -238,21 +240,24 @@ class Run:
 
     # ---- the grid
     def values_for(self, ent, quick):
-        """[(value, model?)] schema-directed values for one parameter entry"""
+        """[(value, model?, oracle?)] schema-directed values for one parameter entry.  For the
+        space-separated list kinds (sp_sep_list_serializer: scope, response_type, ...) an element
+        containing a space is not a valid assignment: such values go to the model only."""
         from idpyoidc.message import Message
         t1 = tier1(ent)
         rng = self.rng
         if t1 == "str":
             vs = C.str_values(rng, 5 if quick else None)
-            return [(v, True) for v in vs]
+            return [(v, True, True) for v in vs]
         if t1 == "int":
-            return [(v, True) for v in (rng.sample(C.int_values(), 3) if quick else C.int_values())]
+            return [(v, True, True) for v in (rng.sample(C.int_values(), 3) if quick else C.int_values())]
         if t1 == "bool":
-            return [(True, True), (False, True)]
+            return [(True, True, True), (False, True, True)]
         if t1 in LISTK:
             plain, spaced = C.list_values(rng)
-            vs = (rng.sample(plain, 3) + rng.sample(spaced, 1)) if quick else plain + spaced
-            return [(v, True) for v in vs]
+            ps = rng.sample(plain, 3) if quick else plain
+            ss = rng.sample(spaced, 1) if quick else spaced
+            return [(v, True, True) for v in ps] + [(v, True, t1 == "list") for v in ss]
         # kinds outside the modelled fragment: plain valid value + boundary strings inside it
         out = []
         pv = C.plain_value(ent)
@@ -269,7 +274,41 @@ class Run:
                     else:
                         inner["x_extra"] = s
                     out.append([inner] if isinstance(typ, list) else inner)
-        return [(v, False) for v in out]
+        return [(v, False, True) for v in out]
+
+    # ---- every listed known finding has a fixed witness, replayed first on every run
+    WITNESSES = [
+        ("space-in-list-element", "idpyoidc.message.oidc.RegistrationRequest",
+         {"redirect_uris": ["https://a/b"], "contacts": ["John Doe", "x@y"]}, "contacts", "urlencoded"),
+        ("form:message", "idpyoidc.message.oidc.OpenIDSchema", {"sub": "s", "_claim_names": {"k": "v"}}, "_claim_names", "urlencoded"),
+        ("form:message", "idpyoidc.message.oidc.OpenIDSchema", {"sub": "s", "address": {"street_address": "a&b=c d"}}, "address", "urlencoded"),
+        ("form:message-list", "idpyoidc.message.oidc.JRD", {"links": [{"rel": "v"}]}, "links", "urlencoded"),
+        ("form:dict", "idpyoidc.message.oidc.RegistrationRequest", {"redirect_uris": ["v"], "jwks": {"k": "v"}}, "jwks", "urlencoded"),
+        ("form:extra", "idpyoidc.message.oauth2.AccessTokenRequest",
+         {"grant_type": "v", "code": "v", "redirect_uri": "v", "x_one": ["single"]}, "x_one", "urlencoded"),
+        ("form:extra", "idpyoidc.message.oauth2.AccessTokenRequest",
+         {"grant_type": "v", "code": "v", "redirect_uri": "v", "x_dict": {"a": 1}}, "x_dict", "urlencoded"),
+        ("form:ia-message", "idpyoidc.message.oidc.identity_assurance.UtilityBill", {"type": "v", "provider": {"k": "v"}}, "provider", "urlencoded"),
+        ("form:ia-message-list", "idpyoidc.message.oidc.identity_assurance.Document",
+         {"type": "v", "check_details": [{"check_method": "v"}]}, "check_details", "urlencoded"),
+        ("form:ia-scalar", "idpyoidc.message.oidc.identity_assurance.CheckDetails", {"check_method": "v", "time": 1600000000}, "time", "urlencoded"),
+        ("json:ia-scalar", "idpyoidc.message.oidc.identity_assurance.CheckDetails", {"check_method": "v", "time": 1600000000}, "time", "json"),
+        ("json:ia-message", "idpyoidc.message.oidc.identity_assurance.ElectronicRecord", {"type": "v", "record": {"type": "v"}}, "record", "dict"),
+        ("json:ia-message-list", "idpyoidc.message.oidc.identity_assurance.Document",
+         {"type": "v", "verifier": [{"organization": "v", "txn": "v"}]}, "verifier", "json"),
+    ]
+
+    def witnesses(self):
+        byname = dict(self.classes)
+        for sig, cname, kw, key, fmt in self.WITNESSES:
+            if cname not in byname:
+                self.ctx.notes.append("witness class %s no longer exists" % cname)
+                continue
+            n0 = len([v for v in self.ctx.violations if v["sig"] == sig])
+            self.cell(cname, byname[cname], kw, key, formats=(fmt,))
+            if len([v for v in self.ctx.violations if v["sig"] == sig]) == n0:
+                self.ctx.notes.append("witness of known finding %s no longer fails (%s %s via %s)" % (sig, cname, key, fmt))
+                self.ctx.count("witness-no-longer-fails:" + sig)
 
     def grid(self):
         ctx, rng = self.ctx, self.rng
@@ -283,10 +322,10 @@ class Run:
                 base = {}
             params = [(k, e) for k, e in cls.c_param.items() if k != "*"]
             for k, ent in params:
-                for v, mod in self.values_for(ent, quick):
+                for v, mod, orc in self.values_for(ent, quick):
                     kw = dict(base)
                     kw[k] = v
-                    self.cell(name, cls, kw, k, model=mod)
+                    self.cell(name, cls, kw, k, model=mod, oracle=orc)
             # language-tagged keys (str parameters), extras
             strp = [k for k, e in params if tier1(e) == "str"]
             for k in (rng.sample(strp, min(2, len(strp))) if quick else strp):
@@ -304,7 +343,7 @@ class Run:
             for _ in range(1 if quick else 4):
                 kw = dict(base)
                 for k, ent in rng.sample(params, min(len(params), rng.randint(2, 6))):
-                    vs = self.values_for(ent, True)
+                    vs = [x for x in self.values_for(ent, True) if x[2]]
                     kw[k] = rng.choice(vs)[0]
                 self.cell(name, cls, kw, None)
 
@@ -406,7 +445,7 @@ class Run:
             kw = dict(base)
             params = [(k, e) for k, e in cls.c_param.items() if k != "*" and tier1(e)]
             for k, ent in rng.sample(params, min(len(params), 5)):
-                kw[k] = rng.choice(self.values_for(ent, True))[0]
+                kw[k] = rng.choice([x for x in self.values_for(ent, True) if x[2]])[0]
             kw["x_extra"] = "a b&c=d%#\"'å+"
             b = attempt(lambda: cls(**copy.deepcopy(kw)))
             if b[0] == "exc":
@@ -414,6 +453,10 @@ class Run:
                 continue
             is_idt = issubclass(cls, IdToken)
             jwks = kj.export_jwks(private=True)
+            jr = self.roundtrip(cls, b[1], "json")
+            if jr[0] != "ok" or self.differing("json", canon(dict(b[1]._dict)), jr[1]):
+                ctx.count("jwt:skipped(JSON layer already fails, reported as json:*)")
+                continue
 
             def judge_jw(fmt, before, m2, rec):
                 if m2[0] == "exc":
@@ -472,6 +515,7 @@ class Run:
 def run(ctx):
     r = Run(ctx)
     ctx.count("classes", len(r.classes))
+    r.witnesses()
     r.text_layer()
     r.grid()
     r.malformed()
